@@ -80,6 +80,12 @@ CHECKS["C09"] = (
     "Synthesised names (result_N, param_N) and documentation text are ignored; type references are mapped through the same run's declarations; import lines compared by count only.",
     "6/C09",
 )
+CHECKS["C20"] = (
+    E1,
+    "Every ordered sequence of length 1-2 over 29 module-level declaration letters (one per flagged feature and per flush point: functions with untyped parameter/result, tuple, set, multi-argument list/set, variadic, optional position-only, required keyword-only, unparsable default, several features; classes with multiple inheritance, constructor features, attributes, class methods, dirty last method, property, nested class, member inherited from a private base; enum) and length 3 over 12 (quick) / all 29 (thorough) letters; every member sequence of length <=2 (quick) / <=3 (thorough) over 13 member letters x 3 constructor variants x 2 base lists inside a class body. One module per sequence through the real pipeline; the set of '// TODO' lines attached to each parsed declaration must equal the expected marker set of its letter, and no marker may be left without a following declaration.",
+    "Expected marker sets are hand-written per letter from the statement; 'internal class as type' / 'unknown type' markers are don't-care; non-literal defaults are kept out of the alphabet.",
+    "6/C20",
+)
 NOT_YET = {}  # id -> reason (filled for properties without a check)
 
 props = [json.loads(l) for l in open(V / "properties.jsonl")]
